@@ -25,6 +25,7 @@ ASSUMPTIONS = [
     "where the library accepts bytes OpenSSL rejects or vice versa (other than outputs of the two encoders) this is recorded, not judged",
 ]
 TIMEOUT = {"quick": 1500, "thorough": 10 * 3600}
+OPTIMIZED_SHARDS = ("mut02_0", "rt00")  # these shards also run under python -O
 REPL = [0x00, 0x01, 0x02, 0x03, 0x04, 0x06, 0x30, 0x7F, 0x80, 0x81, 0xA0, 0xFF]
 P256_HEADER = bytes.fromhex("3059301306072A8648CE3D020106082A8648CE3D03010703420004")
 
